@@ -12,6 +12,7 @@
 //   time;...   KMCCalculator::Promotetime / ChooseHoppingDest with a scripted uniform source
 //              (C14_random_seam.h): inverse-CDF identity dt = -ln(x)/k, x in {1-u, u}
 #include <algorithm>
+#include <memory>
 #include <cfloat>
 
 #include "bsx.h"
@@ -211,6 +212,164 @@ static bsx::Outcome run_tree(const TreeCase &c) {
   return o;
 }
 
+// ======================================================================== histories (rebuilds on ONE object)
+// The kmclifetime flow builds every site's tree in LoadGraph and then ReadLifetimeFile adds a decay
+// event per site and rebuilds (InitEscapeRate + MakeHuffTree) on the SAME GNode; a bare huffmanTree
+// can likewise be re-targeted with setEvents() + makeTree().  State that survives a build
+// (sum_of_values, escape_rate_, htree, treeIsMade) must not leak into the next one.  A history is a
+// sequence of operations on one object; after EVERY build the exact partition is decided as above,
+// the escape rate must equal the sum of the CURRENT rates, and the object must answer every probe
+// exactly like a FRESH object built once from the same final event list.
+struct HOp {
+  char kind = 'B';            // 'B' build with list (raw tree: replace events; GNode: append them), 'A' add one event,
+                              // 'D' add one decay event (GNode; plain add for the raw tree), 'R' rebuild only
+  std::vector<double> rates;  // B: the list, A/D: one rate
+};
+static std::string hopstr(const std::vector<HOp> &ops) {
+  std::string s;
+  for (size_t i = 0; i < ops.size(); i++) {
+    if (i) s += '/';
+    s += ops[i].kind;
+    s += ratestr(ops[i].rates);
+  }
+  return s;
+}
+static std::vector<HOp> parsehops(const std::string &s) {
+  std::vector<HOp> ops;
+  for (auto &t : bsx::split(s, '/')) {
+    if (t.empty()) continue;
+    HOp o;
+    o.kind = t[0];
+    if (t.size() > 1)
+      for (auto &r : bsx::split(t.substr(1), ',')) o.rates.push_back(unhex(r));
+    ops.push_back(o);
+  }
+  return ops;
+}
+static std::string hophuman(const std::vector<HOp> &ops, bool gnode = false) {
+  std::string s;
+  for (size_t i = 0; i < ops.size(); i++) {
+    if (i) s += " ; ";
+    const HOp &o = ops[i];
+    if (o.kind == 'B') s += std::string(gnode && i ? "append " : "build ") + ratehuman(o.rates) + (gnode && i ? " + rebuild" : "");
+    else if (o.kind == 'R') s += "rebuild";
+    else { char b[48]; snprintf(b, sizeof b, "add %s%.6g + rebuild", o.kind == 'D' ? "decay " : "", o.rates[0]); s += b; }
+  }
+  return s;
+}
+
+struct RawObj {
+  std::vector<Ev> evs;
+  huffmanTree<Ev> tree;
+  void build() { tree.setEvents(&evs); tree.makeTree(); }
+  long lookup(double p) const {
+    Ev *e = tree.findHoppingDestination(p);
+    if (e == nullptr || e < evs.data() || e >= evs.data() + evs.size()) return -1;
+    return (long)(e - evs.data());
+  }
+  std::vector<double> thr() const { std::vector<double> t; for (auto &nd : tree.htree) t.push_back(nd.probability); return t; }
+};
+struct GObj {
+  Segment seg{"s", 0};
+  GNode node{seg, QMStateType(QMStateType::Electron), true};
+  GNode dest{seg, QMStateType(QMStateType::Electron), true};  // destination: never dereferenced by the lookup
+  void add(double r, bool decay) { if (decay) node.AddDecayEvent(r); else node.AddEvent(&dest, Eigen::Vector3d(1, 0, 0), r); }
+  void build() { node.InitEscapeRate(); node.MakeHuffTree(); }
+  long lookup(double p) const {
+    const GLink *e = node.findHoppingDestination(p), *base = node.events_.data();
+    if (e == nullptr || e < base || e >= base + node.events_.size()) return -1;
+    return (long)(e - base);
+  }
+  std::vector<double> thr() const { std::vector<double> t; for (auto &nd : node.hTree.htree) t.push_back(nd.probability); return t; }
+};
+// probes for the differential oracle: 0, 1, every threshold of either object, its neighbours, every gap midpoint
+static std::vector<double> diffprobes(const std::vector<double> &t1, const std::vector<double> &t2) {
+  std::vector<double> cuts{0.0, 1.0};
+  for (auto *t : {&t1, &t2}) for (double x : *t) if (x > 0 && x < 1) cuts.push_back(x);
+  std::sort(cuts.begin(), cuts.end());
+  cuts.erase(std::unique(cuts.begin(), cuts.end()), cuts.end());
+  std::vector<double> p{DBL_MIN, 0.5};
+  for (size_t g = 0; g < cuts.size(); g++) {
+    p.push_back(cuts[g]);
+    if (cuts[g] < 1) p.push_back(std::nextafter(cuts[g], 2.0));
+    if (cuts[g] > 0) p.push_back(std::nextafter(cuts[g], -1.0));
+    if (g + 1 < cuts.size()) p.push_back(cuts[g] + (cuts[g + 1] - cuts[g]) / 2);
+  }
+  return p;
+}
+
+static bsx::Outcome run_hist(bool gnode, const std::vector<HOp> &ops) {
+  bsx::Outcome o;
+  const std::string who = gnode ? "gnode" : "tree";
+  size_t step = 0;
+  auto failwith = [&](const std::string &key, const std::string &what) {
+    o.ok = false;
+    o.key = std::string(step == 0 ? "hist-first-" : "hist-rebuild-") + key;
+    o.what = what + "  after build #" + std::to_string(step + 1) + " of history on one " + (gnode ? "GNode" : "huffmanTree") + ": " + hophuman(ops, gnode);
+    return o;
+  };
+  try {
+    RawObj raw;
+    std::unique_ptr<GObj> g(new GObj);
+    std::vector<double> cur;      // current event rates of the object
+    std::vector<char> curdecay;   // GNode: which of them are decay events
+    std::string sig;
+    for (step = 0; step < ops.size(); step++) {
+      const HOp &op = ops[step];
+      if (op.kind == 'B') {
+        if (gnode) { for (double r : op.rates) { g->add(r, false); cur.push_back(r); curdecay.push_back(0); } }
+        else { raw.evs.clear(); cur.clear(); curdecay.clear(); for (double r : op.rates) { raw.evs.push_back({r}); cur.push_back(r); curdecay.push_back(0); } }
+      } else if (op.kind == 'A' || op.kind == 'D') {
+        bool dec = op.kind == 'D';
+        if (gnode) g->add(op.rates[0], dec); else raw.evs.push_back({op.rates[0]});
+        cur.push_back(op.rates[0]); curdecay.push_back(dec && gnode);
+      }
+      if (cur.empty()) { o.extra = "EMPTY"; return o; }  // nothing to build (not enumerated)
+      if (gnode) g->build(); else raw.build();
+      // (1) exact partition with the CURRENT rates
+      PartOut po = gnode ? check_partition(cur, g->thr(), [&](double p) { return g->lookup(p); }, who)
+                         : check_partition(cur, raw.thr(), [&](double p) { return raw.lookup(p); }, who);
+      if (!po.ok) return failwith(po.key, po.what);
+      // (2) escape rate = sum of the current rates; events stored as given
+      if (gnode) {
+        long double sum = 0;
+        for (double r : cur) sum += r;
+        if (!(std::fabs(g->node.getEscapeRate() - (double)sum) <= 2.0 * double(cur.size()) * DBL_EPSILON * (double)sum))
+          return failwith("gnode-escape-rate", "escape rate " + bsx::fmt(g->node.getEscapeRate()) + " != sum of the current event rates " + bsx::fmt((double)sum));
+        if (g->node.Events().size() != cur.size()) return failwith("gnode-event-count", "event list has " + std::to_string(g->node.Events().size()) + " entries");
+        for (size_t i = 0; i < cur.size(); i++)
+          if (g->node.Events()[i].getRate() != cur[i] || g->node.Events()[i].isDecayEvent() != (bool)curdecay[i])
+            return failwith("gnode-event-stored", "event " + std::to_string(i) + " stored with rate " + bsx::fmt(g->node.Events()[i].getRate()));
+      }
+      // (3) differential: identical answers to a fresh object built once with the same final list
+      if (gnode) {
+        std::unique_ptr<GObj> f(new GObj);
+        for (size_t i = 0; i < cur.size(); i++) f->add(cur[i], curdecay[i]);
+        f->build();
+        if (f->node.getEscapeRate() != g->node.getEscapeRate())
+          return failwith("gnode-escape-differs-from-fresh", "escape rate " + bsx::fmt(g->node.getEscapeRate()) + " but a fresh GNode with the same events has " + bsx::fmt(f->node.getEscapeRate()));
+        for (double p : diffprobes(g->thr(), f->thr()))
+          if (g->lookup(p) != f->lookup(p))
+            return failwith("gnode-differs-from-fresh", "p=" + bsx::fmt(p) + " selects event " + std::to_string(g->lookup(p)) + " but a fresh GNode with the same events selects " + std::to_string(f->lookup(p)));
+      } else {
+        RawObj f;
+        for (double r : cur) f.evs.push_back({r});
+        f.build();
+        for (double p : diffprobes(raw.thr(), f.thr()))
+          if (raw.lookup(p) != f.lookup(p))
+            return failwith("tree-differs-from-fresh", "p=" + bsx::fmt(p) + " selects event " + std::to_string(raw.lookup(p)) + " but a fresh tree with the same events selects " + std::to_string(f.lookup(p)));
+      }
+      sig += po.sig + "|";
+    }
+    o.extra = sig;
+    o.cls = bsx::fnv(who + sig);
+  } catch (const std::exception &e) {
+    return failwith(who + "-throws", std::string("exception: ") + e.what());
+  }
+  return o;
+}
+static std::string histstr(bool gnode, const std::vector<HOp> &ops) { return std::string("hist;kind=") + (gnode ? "gnode" : "tree") + ";ops=" + hopstr(ops); }
+
 // ======================================================================== rates
 static const double EV = tools::conv::ev2hrt;
 struct RateCase {
@@ -393,6 +552,7 @@ static bsx::Outcome run_case(const std::string &cas) {
     for (auto &t : bsx::split(m["rates"], ',')) c.rates.push_back(unhex(t));
     return run_tree(c);
   }
+  if (cas.rfind("hist;", 0) == 0) return run_hist(m["kind"] == "gnode", parsehops(m["ops"]));
   if (cas.rfind("rate;", 0) == 0) {
     RateCase c;
     c.carrier = atoi(m["c"].c_str());
@@ -419,6 +579,16 @@ static std::vector<double> longlist(const std::string &kind, long n) {
     else if (kind == "alt") r[(size_t)i] = i % 2 ? 1e3 : 1e-3;
     else r[(size_t)i] = double((i * 7919) % 13 + 1) * std::pow(10.0, double((i * 31) % 5) - 2.0);  // "mixed": fixed arithmetic pattern
   }
+  return r;
+}
+
+// DESIGN §6: a timed-out deterministic case is re-run alone with a 10x limit before it is called a hang
+// (on an overloaded machine a child can be stalled past the per-case alarm).
+template <class F>
+static bsx::Outcome retry_if_alarm(const bsx::Outcome &o, F fn) {
+  if (o.ok || o.key != "fatal" || o.what.find("signal 14") == std::string::npos) return o;
+  bsx::Outcome r = o;
+  bsx::contained(0, 1, [&](long long) { return fn(); }, [&](long long, const bsx::Outcome &x) { r = x; }, 3000);
   return r;
 }
 
@@ -464,6 +634,32 @@ int main(int argc, char **argv) {
       }
   }
   R.counters["tree_cases_total"] = (long long)trees.size();
+  // ---------------- histories on one object
+  struct HistCase { bool gnode; std::vector<HOp> ops; };
+  std::vector<HistCase> hists;
+  {
+    std::vector<std::vector<double>> lists = {{1.0}, {1e6}, {1.0, 1.0}, {1e-6, 1e6}, {2.0, 2.0, 2.0}, {1e-6, 1.0, 1e6}, {1, 1, 1, 1, 1},
+                                              {1e-6, 1e-3, 1.0, 1e3, 1e6}, longlist("equal", 8), longlist("geom", 8)};
+    const int depth = thorough ? 4 : 3;
+    for (int gn = 0; gn < 2; gn++) {
+      std::vector<HOp> alpha;
+      for (auto &l : lists) alpha.push_back({'B', l});
+      for (double r : {1e-6, 1.0, 1e6}) alpha.push_back({'A', {r}});
+      if (gn) { alpha.push_back({'D', {1.0}}); alpha.push_back({'D', {1e-6}}); }
+      alpha.push_back({'R', {}});
+      for (int L = 2; L <= depth; L++) {
+        std::vector<int> idx((size_t)L, 0), radix((size_t)L, (int)alpha.size());
+        do {
+          if (alpha[(size_t)idx[0]].kind == 'R') continue;  // nothing to rebuild yet
+          HistCase h;
+          h.gnode = gn;
+          for (int k = 0; k < L; k++) h.ops.push_back(alpha[(size_t)idx[(size_t)k]]);
+          hists.push_back(h);
+        } while (bsx::next(idx, radix));
+      }
+    }
+  }
+  R.counters["hist_cases_total"] = (long long)hists.size();
   // ---------------- rates
   std::vector<RateCase> rates;
   {
@@ -539,13 +735,14 @@ int main(int argc, char **argv) {
           if (crashes >= MAXCRASH) { bsx::Outcome s; s.extra = "SKIPPED"; return s; }  // the child is re-forked after every crash and sees the count
           return run_tree(trees[(size_t)mine[(size_t)j]]);
         },
-        [&](long long j, const bsx::Outcome &o) {
+        [&](long long j, const bsx::Outcome &o0) {
           const TreeCase &c = trees[(size_t)mine[(size_t)j]];
+          const bsx::Outcome o = retry_if_alarm(o0, [&] { return run_tree(c); });
           if (o.extra == "SKIPPED") { R.cap("more than " + std::to_string(MAXCRASH) + " crashing cases: remaining tree cases skipped"); return; }
           R.eval(); R.counters["tree_cases"]++;
           if (!o.ok && o.key == "fatal") crashes++;
           if (!o.ok) {
-            std::string key = o.key == "fatal" ? std::string("tree-crash-") + (c.rates.size() % 2 ? "odd" : "even") : o.key;
+            std::string key = o.key == "fatal" ? std::string(o.what.find("signal 14") != std::string::npos ? "tree-timeout-" : "tree-crash-") + (c.rates.size() % 2 ? "odd" : "even") : o.key;
             R.fail(key, o.what + (o.key == "fatal" ? "  rates=" + ratehuman(c.rates) : ""), treestr(c));
             return;
           }
@@ -553,7 +750,32 @@ int main(int argc, char **argv) {
           if (R.samples.size() < 4 && (c.rates.size() == 5 || c.rates.size() == 9) && mine[(size_t)j] % 7 == 3)
             R.sample("tree rates=" + ratehuman(c.rates) + " -> events along [0,1]: " + o.extra);
         },
-        60);
+        300);  // generous: on an overloaded machine a child blocked on the result pipe must not be mistaken for a hang
+  }
+  {  // histories
+    std::vector<long long> mine;
+    for (long long i = 0; i < (long long)hists.size(); i++) if (a.mine(gi + i)) mine.push_back(i);
+    gi += (long long)hists.size();
+    long long shown = 0;
+    bsx::contained(
+        0, (long long)mine.size(),
+        [&](long long j) {
+          if (crashes >= MAXCRASH) { bsx::Outcome s; s.extra = "SKIPPED"; return s; }
+          const HistCase &h = hists[(size_t)mine[(size_t)j]];
+          return run_hist(h.gnode, h.ops);
+        },
+        [&](long long j, const bsx::Outcome &o0) {
+          long long i = mine[(size_t)j];
+          const HistCase &h = hists[(size_t)i];
+          const bsx::Outcome o = retry_if_alarm(o0, [&] { return run_hist(h.gnode, h.ops); });
+          if (o.extra == "SKIPPED") { R.cap("more than " + std::to_string(MAXCRASH) + " crashing cases: remaining history cases skipped"); return; }
+          R.eval(); R.counters["hist_cases"]++; R.counters["hist_builds"] += (long long)h.ops.size();
+          if (!o.ok && o.key == "fatal") crashes++;
+          if (!o.ok) { R.fail(o.key == "fatal" ? std::string(o.what.find("signal 14") != std::string::npos ? "hist-timeout-" : "hist-crash-") + (h.gnode ? "gnode" : "tree") : o.key, o.what + (o.key == "fatal" ? "  history: " + hophuman(h.ops, h.gnode) : ""), histstr(h.gnode, h.ops)); return; }
+          R.cls(o.cls);
+          if (shown < 3 && i % 487 == 101) { R.sample(std::string("history on one ") + (h.gnode ? "GNode: " : "huffmanTree: ") + hophuman(h.ops, h.gnode) + " -> events along [0,1] after each build: " + o.extra); shown++; }
+        },
+        300);  // generous: on an overloaded machine a child blocked on the result pipe must not be mistaken for a hang
   }
   {  // rates (contained: sanitizer / assertion aborts are attributed to the case)
     std::vector<long long> mine;
@@ -566,9 +788,10 @@ int main(int argc, char **argv) {
           if (crashes >= MAXCRASH) { bsx::Outcome s; s.extra = "SKIPPED"; return s; }
           return run_rate(rates[(size_t)mine[(size_t)j]]);
         },
-        [&](long long j, const bsx::Outcome &o) {
+        [&](long long j, const bsx::Outcome &o0) {
           long long i = mine[(size_t)j];
           const RateCase &c = rates[(size_t)i];
+          const bsx::Outcome o = retry_if_alarm(o0, [&] { return run_rate(c); });
           if (o.extra == "SKIPPED") { R.cap("more than " + std::to_string(MAXCRASH) + " crashing cases: remaining rate cases skipped"); return; }
           if (!o.ok && o.key == "fatal") crashes++;
           R.eval(); R.counters["rate_cases"]++;
@@ -576,7 +799,7 @@ int main(int argc, char **argv) {
           R.cls(o.cls);
           if (shown < 4 && i % 601 == 77) { R.sample("rate " + ratecasehuman(c) + " -> " + o.extra); shown++; }
         },
-        60);
+        300);  // generous: on an overloaded machine a child blocked on the result pipe must not be mistaken for a hang
   }
   {  // waiting times
     std::vector<long long> mine;
@@ -588,9 +811,10 @@ int main(int argc, char **argv) {
           if (crashes >= MAXCRASH) { bsx::Outcome s; s.extra = "SKIPPED"; return s; }
           return run_time(times[(size_t)mine[(size_t)j]]);
         },
-        [&](long long j, const bsx::Outcome &o) {
+        [&](long long j, const bsx::Outcome &o0) {
           long long i = mine[(size_t)j];
           const TimeCase &c = times[(size_t)i];
+          const bsx::Outcome o = retry_if_alarm(o0, [&] { return run_time(c); });
           if (o.extra == "SKIPPED") { R.cap("more than " + std::to_string(MAXCRASH) + " crashing cases: remaining waiting-time cases skipped"); return; }
           if (!o.ok && o.key == "fatal") crashes++;
           R.eval(); R.counters["time_cases"]++;
@@ -598,7 +822,7 @@ int main(int argc, char **argv) {
           if (o.cls) R.cls(o.cls);
           if (shown < 3 && i % 29 == 11) { R.sample("time u=" + bsx::fmt(c.u) + " k=" + bsx::fmt(c.k) + " -> " + o.extra); shown++; }
         },
-        60);
+        300);  // generous: on an overloaded machine a child blocked on the result pipe must not be mistaken for a hang
   }
   R.assumptions = {
       "thresholds are read from huffmanTree::htree[].probability (-fno-access-control); the lookup is assumed to compare p only against these "
